@@ -9,6 +9,8 @@ structure ConsState where
   c : Circ OState CState
   all : All
   partialCfg : Bool := false     -- the stored config has no TimeKeeper (diagnostics then use the wall clock)
+  mono : Bool := true            -- the substitute clock has never been set back
+  reads : List Int := []         -- times at which the counters were read so far (a read presents its time to every counter)
 
 def msTrunc (x : Int) : Int := tdiv x 1000000
 
@@ -54,8 +56,9 @@ partial def runConsOps (n : Nat) (w : Int) (maxHealthy : Int) (st : ConsState) (
     | some "var" =>
       runConsOps n w maxHealthy st hist realOpen' rest (acc.push (s!"open={fmtBool (isOpenEff st.c)}" ++ "\t-"))
     | some "tick" =>
-      let c' := { st.c with clock := st.c.clock + (toks.getD 1 "0").toInt?.getD 0 }
-      runConsOps n w maxHealthy { st with c := c' } hist realOpen' rest (acc.push (s!"open={fmtBool (isOpenEff c')}" ++ "\t-"))
+      let d := (toks.getD 1 "0").toInt?.getD 0
+      let c' := { st.c with clock := st.c.clock + d }
+      runConsOps n w maxHealthy { st with c := c', mono := st.mono && decide (0 ≤ d) } hist realOpen' rest (acc.push (s!"open={fmtBool (isOpenEff c')}" ++ "\t-"))
     | some "stats" =>
       let now := st.c.clock
       let (r', sums) := st.all.run.sums now
@@ -65,9 +68,12 @@ partial def runConsOps (n : Nat) (w : Int) (maxHealthy : Int) (st : ConsState) (
       let fbs : FbStats := { successes := fa, rejects := fb', failures := fc }
       let ep := Cons.errorPercentage (sums.getD 0 0) (sums.getD 2 0) (sums.getD 4 0)
       let m := s!"tot={fmtInts r'.totals} roll={fmtInts sums} fbtot={fmtInts [fbs.successes.total, fbs.rejects.total, fbs.failures.total]} fbroll={fmtInts [fva, fvb, fvc]} errpct={fmtRat ep}"
-      let sp := s!"tot={fmtInts (SpecC20.kinds.map (SpecC20.total hist))} roll={fmtInts (SpecC20.kinds.map fun k => SpecC20.rolling n w hist k now)} " ++
-        s!"fbtot={fmtInts (SpecC20.fbKinds.map (SpecC20.fbTotal hist))} fbroll={fmtInts (SpecC20.fbKinds.map fun k => SpecC20.fbRolling n w hist k now)} errpct={fmtRat (SpecC20.errorPercentage n w hist now)}"
-      runConsOps n w maxHealthy { st with all := { st.all with run := r', fb := fbs } } hist realOpen rest (acc.push (m ++ "\t" ++ sp))
+      let rs := SpecC20.kinds.map fun k => SpecC20.rollingAny n w hist st.reads k now
+      let (ss, sf, stt) := (rs.getD 0 0, rs.getD 2 0, rs.getD 4 0)
+      let spEp : Rat := if ss + sf + stt = 0 then 0 else F64.rne (((sf + stt : Int) : Rat) / ((ss + sf + stt : Int) : Rat))
+      let sp := s!"tot={fmtInts (SpecC20.kinds.map (SpecC20.total hist))} roll={fmtInts rs} " ++
+        s!"fbtot={fmtInts (SpecC20.fbKinds.map (SpecC20.fbTotal hist))} fbroll={fmtInts (SpecC20.fbKinds.map fun k => SpecC20.fbRollingAny n w hist st.reads k now)} errpct={fmtRat spEp}"
+      runConsOps n w maxHealthy { st with all := { st.all with run := r', fb := fbs }, reads := st.reads ++ [now] } hist realOpen rest (acc.push (m ++ "\t" ++ sp))
     | some "slo" =>
       let m := s!"pass={st.all.slo.pass} fail={st.all.slo.fail} cbpass={st.all.slo.pass} cbfail={st.all.slo.fail}"
       let p := SpecC20.sloPass maxHealthy hist; let f := SpecC20.sloFail maxHealthy hist
@@ -84,12 +90,12 @@ partial def runConsOps (n : Nat) (w : Int) (maxHealthy : Int) (st : ConsState) (
       let (lat', snap) := r'.latencies.snapshot now
       let m := streamFields "c" (isOpenEff st.c) sums r'.totals [fva, fvb, fvc] [fbs.successes.total, fbs.rejects.total, fbs.failures.total] snap st.c.conc
       -- spec: the same record computed from the history-derived numbers (latencies: no opinion, they are C15's)
-      let hs := SpecC20.kinds.map fun k => SpecC20.rolling n w hist k now
+      let hs := SpecC20.kinds.map fun k => SpecC20.rollingAny n w hist st.reads k now
       let ht := SpecC20.kinds.map (SpecC20.total hist)
-      let hfs := SpecC20.fbKinds.map fun k => SpecC20.fbRolling n w hist k now
+      let hfs := SpecC20.fbKinds.map fun k => SpecC20.fbRollingAny n w hist st.reads k now
       let hft := SpecC20.fbKinds.map (SpecC20.fbTotal hist)
       let sp := streamFields "c" realOpen hs ht hfs hft snap st.c.conc
-      runConsOps n w maxHealthy { st with all := { st.all with run := { r' with latencies := lat' }, fb := fbs } } hist realOpen rest (acc.push (m ++ "\t" ++ sp))
+      runConsOps n w maxHealthy { st with all := { st.all with run := { r' with latencies := lat' }, fb := fbs }, reads := st.reads ++ [now] } hist realOpen rest (acc.push (m ++ "\t" ++ sp))
     | _ => runConsOps n w maxHealthy st hist realOpen rest (acc.push "bad-op\t-")
 
 /-- suite `consumers`: header n= dur= pn= pdur= psize= slo= + circuit settings -/
